@@ -1,7 +1,8 @@
 #!/bin/sh
 # usage: tools/try_seeded.sh <seeded id> <property id> [tier]   (needs a scratch worktree of /repo at $MREPO, default /tmp/mrepo)
 M=${MREPO:-/tmp/mrepo}
-cd "$M" && { git apply /verif/seeded/$1/patch.diff 2>/dev/null || git apply -3 /verif/seeded/$1/patch.diff; } || exit 2
+P=/verif/seeded/$1/patch.diff; [ -f /verif/seeded/$1/patch_rebased.diff ] && P=/verif/seeded/$1/patch_rebased.diff
+cd "$M" && { git apply $P 2>/dev/null || git apply -3 $P; } || exit 2
 cd /verif
 VERIF_REPO=$M ./check $2 --tier ${3:-quick} | grep -v "^KNOWN" | tail -2 | cut -c1-250
 python3 -c "
